@@ -127,6 +127,8 @@ def features(doc):
                     f.add("empty_par")
                 if "s" in ps:
                     f.add("inline_markup")
+                if "/" in ps:
+                    f.add("selfclosed_cell")
                 for i in c:
                     if is_table(i):
                         tab(i, depth + 1)
@@ -567,7 +569,7 @@ def html_rule(cell, path):
     run together, the whole whitespace-normalised"""
     parts = []
     for ii, it in enumerate(cell):
-        if is_table(it):
+        if is_table(it) or it == "/":
             continue
         ip = f"{path}i{ii}"
         parts.append(z3.Concat(txt(ip + "a"), txt(ip + "b")) if it == "s" else par_text(it, ip))
@@ -597,16 +599,103 @@ def html_leaves(doc):
 
 
 def html_shapes():
+    """+ inline markup inside a paragraph ("s") and empty cells serialised in self-closed form (<td/>, <th/>: cell ["/"])"""
     cells = ([], ["p"], ["p", "p"])
     out = [[t] for t in single_tables(True, True, cells, extra_cells=(["s"], ["s", "p"]))]
     out += [d for d in docs(True) if len(d) > 1]
+    SC, P = ["/"], ["p"]
+    for rows in ([[SC]], [[SC, P]], [[P, SC]], [[SC, SC]], [[SC], [P]], [[P], [SC]], [[P, SC], [SC, P]], [[SC, SC], [P, P]], [[P, P], [SC, SC]]):
+        out.append([T(rows)])
+        out.append([T(rows, 1)])
     return out
+
+
+def html_events(doc):
+    """parser events of the serialised document, in document order: ("s", tag) start tag, ("e", tag) end tag, ("se", tag) a
+    self-closed element (<td/>), ("d", text) character data"""
+    ev = []
+
+    def par(it, ip):
+        ev.append(("s", "p"))
+        if it == "s":
+            ev.extend([("d", txt(ip + "a")), ("s", "b"), ("d", txt(ip + "b")), ("e", "b")])
+        elif it == "p":
+            ev.append(("d", txt(ip)))
+        ev.append(("e", "p"))
+
+    def table(t, path):
+        ev.append(("s", "table"))
+        for ri, r in enumerate(t["rows"]):
+            if t["hdr"] and ri == 0:
+                ev.append(("s", "thead"))
+            if t["hdr"] and ri == t["hdr"]:
+                ev.extend([("e", "thead"), ("s", "tbody")])
+            ev.append(("s", "tr"))
+            for ci, c in enumerate(r):
+                ctag = "th" if ri < t["hdr"] else "td"
+                cp = f"{path}.r{ri}c{ci}"
+                if c == ["/"]:
+                    ev.append(("se", ctag))
+                    continue
+                ev.append(("s", ctag))
+                if c == ["p"]:
+                    ev.append(("d", txt(cp + "i0")))
+                else:
+                    for ii, it in enumerate(c):
+                        if is_table(it):
+                            table(it, f"{cp}i{ii}")
+                        else:
+                            par(it, f"{cp}i{ii}")
+                ev.append(("e", ctag))
+            ev.append(("e", "tr"))
+        if t["hdr"]:
+            ev.append(("e", "tbody" if len(t["rows"]) > t["hdr"] else "thead"))
+        ev.append(("e", "table"))
+    ev.append(("s", "body"))
+    for bi, b in enumerate(doc):
+        if is_table(b):
+            table(b, f"b{bi}")
+        else:
+            par("p", f"b{bi}")
+    ev.append(("e", "body"))
+    return ev
+
+
+def feed_events(run, st, me, cls, events):
+    """html.parser.HTMLParser.feed (ASSUMED): calls handle_starttag / handle_endtag / handle_data in document order and
+    handle_startendtag for a self-closed element, whose inherited default is handle_starttag followed by handle_endtag.
+    -> ([states], [(state, exc)])"""
+    own_startend = f"{cls}.handle_startendtag" in run.mod.functions
+    states, raises = [st], []
+    for kind, arg in events:
+        nxt = []
+        for s in states:
+            if kind == "s":
+                r, x = run.method(s, me, cls, "handle_starttag", [VStr(arg), VTuple([])])
+            elif kind == "e":
+                r, x = run.method(s, me, cls, "handle_endtag", [VStr(arg)])
+            elif kind == "d":
+                r, x = run.method(s, me, cls, "handle_data", [VStr(arg)])
+            elif own_startend:
+                r, x = run.method(s, me, cls, "handle_startendtag", [VStr(arg), VTuple([])])
+            else:
+                r1, x = run.method(s, me, cls, "handle_starttag", [VStr(arg), VTuple([])])
+                r = []
+                for s1 in r1:
+                    r2, x2 = run.method(s1, me, cls, "handle_endtag", [VStr(arg)])
+                    r.extend(r2)
+                    x = x + x2
+            nxt.extend(r)
+            raises.extend(x)
+        states = nxt
+    return states, raises
 
 
 def w_html(repo, tier):
     def inst(reg):
         install_str_models(reg)
         reg.module_consts[(HTML, "_RE_WS")] = VExt("RegexWS")
+        reg.method_models[("SuperProxy", "__init__")] = lambda ex, st, o, a, k, n: [(st, NONE)]
         reg.add(FnContract(target=f"{HTML}::_HtmlTextExtractor._format_table_as_text", params=[("self", p_unk()), ("table_data", p_unk())],
                            assumed=True, returns=lambda c: VStr(z3.String(fresh_name("table_text"))), note="text rendering of a table (C02)"))
     run = Run(HTML, repo, inst)
@@ -614,49 +703,32 @@ def w_html(repo, tier):
 
     def one(doc):
         st = State()
-
-        def node(tag, text="", children=()):
-            kids = VRef(st.alloc(HeapObj("list", list(children)), ex.refs))
-            d = {"tag": VStr(tag), "attrs": VRef(st.alloc(HeapObj("dict", {}), ex.refs)), "children": kids,
-                 "text": text if isinstance(text, V) else VStr(text), "tail": VStr("")}
-            return VRef(st.alloc(HeapObj("dict", d), ex.refs))
-
-        def table(t, path):
-            rows = []
-            for ri, r in enumerate(t["rows"]):
-                cells = []
-                for ci, c in enumerate(r):
-                    ctag = "th" if ri < t["hdr"] else "td"
-                    cp = f"{path}.r{ri}c{ci}"
-                    if c == ["p"]:
-                        cells.append(node(ctag, VStr(txt(cp + "i0"))))
-                        continue
-                    items = []
-                    for ii, it in enumerate(c):
-                        ip = f"{cp}i{ii}"
-                        if is_table(it):
-                            items.append(table(it, ip))
-                        elif it == "s":
-                            items.append(node("p", VStr(txt(ip + "a")), [node("b", VStr(txt(ip + "b")))]))
-                        else:
-                            items.append(node("p", VStr(par_text(it, ip))))
-                    cells.append(node(ctag, "", items))
-                rows.append(node("tr", "", cells))
-            if t["hdr"]:
-                rest = rows[t["hdr"]:]
-                rows = [node("thead", "", rows[:t["hdr"]])] + ([node("tbody", "", rest)] if rest else [])
-            return node("table", "", rows)
-        blocks = [table(b, f"b{bi}") if is_table(b) else node("p", VStr(txt(f"b{bi}"))) for bi, b in enumerate(doc)]
-        body = node("body", "", blocks)
         for t in html_leaves(doc):
             st.assume(z3.Length(t) > 0)
-        tables = VRef(st.alloc(HeapObj("list", []), ex.refs))
-        me = VRef(st.alloc(HeapObj("obj", {"root": body, "tables": tables, "_node_cache": VExt("MemoCache"), "_single_node_cache": VExt("MemoCache")},
-                                   "_HtmlTextExtractor", fresh=False), ex.refs))
-        rets, raises = run.call("_HtmlTextExtractor._process_node", {"self": me, "node": body, "depth": VInt(0), "include_tail": VBool(False)}, st)
+        # the tree is built by the REAL _HtmlTreeBuilder handlers from the parser events of the document
+        builder = VRef(st.alloc(HeapObj("obj", {}, "_HtmlTreeBuilder", fresh=False), ex.refs))
+        states, raises = run.method(st, builder, "_HtmlTreeBuilder", "__init__", [])
+        built, out = [], []
+        for s0 in states:
+            ss, xx = feed_events(run, s0, builder, "_HtmlTreeBuilder", html_events(doc))
+            built.extend(ss)
+            raises.extend(xx)
         want = expected_grids(doc, html_rule)
-        return [(s.pc, to_py(s, s.obj(me.ref).data["tables"]), want) for (s, v) in rets], [(s.pc, e) for (s, e) in raises]
-    return run_walker("C13/html_extractor.py::_HtmlTextExtractor._process_node", HTML, html_shapes(), one)
+        for s in built:
+            root = s.obj(builder.ref).data.get("root")
+            kids = ex.concrete_items(s, s.obj(root.ref).data["children"]) if isinstance(root, VRef) and s.obj(root.ref).kind == "dict" else None
+            if not kids:
+                out.append((s.pc, ("?", "tree builder produced no body"), want))
+                continue
+            body = kids[0]
+            tables = VRef(s.alloc(HeapObj("list", []), ex.refs))
+            me = VRef(s.alloc(HeapObj("obj", {"root": root, "tables": tables, "_node_cache": VExt("MemoCache"), "_single_node_cache": VExt("MemoCache")},
+                                      "_HtmlTextExtractor", fresh=False), ex.refs))
+            rets, x2 = run.call("_HtmlTextExtractor._process_node", {"self": me, "node": body, "depth": VInt(0), "include_tail": VBool(False)}, s)
+            raises.extend(x2)
+            out.extend((s2.pc, to_py(s2, s2.obj(me.ref).data["tables"]), want) for (s2, v) in rets)
+        return out, [(s.pc, e) for (s, e) in raises]
+    return run_walker("C13/html_extractor.py::_HtmlTreeBuilder.handlers+_HtmlTextExtractor._process_node", HTML, html_shapes(), one)
 
 
 def w_epub(repo, tier):
@@ -667,72 +739,20 @@ def w_epub(repo, tier):
     ex = run.ex
     cls = "_XhtmlTextExtractor"
 
-    def events(doc):
-        ev = []
-
-        def par(it, ip):
-            ev.append(("s", "p"))
-            if it == "s":
-                ev.extend([("d", txt(ip + "a")), ("s", "b"), ("d", txt(ip + "b")), ("e", "b")])
-            elif it == "p":
-                ev.append(("d", txt(ip)))
-            ev.append(("e", "p"))
-
-        def table(t, path):
-            ev.append(("s", "table"))
-            for ri, r in enumerate(t["rows"]):
-                if t["hdr"] and ri == 0:
-                    ev.append(("s", "thead"))
-                if t["hdr"] and ri == t["hdr"]:
-                    ev.extend([("e", "thead"), ("s", "tbody")])
-                ev.append(("s", "tr"))
-                for ci, c in enumerate(r):
-                    ctag = "th" if ri < t["hdr"] else "td"
-                    cp = f"{path}.r{ri}c{ci}"
-                    ev.append(("s", ctag))
-                    if c == ["p"]:
-                        ev.append(("d", txt(cp + "i0")))
-                    else:
-                        for ii, it in enumerate(c):
-                            if is_table(it):
-                                table(it, f"{cp}i{ii}")
-                            else:
-                                par(it, f"{cp}i{ii}")
-                    ev.append(("e", ctag))
-                ev.append(("e", "tr"))
-            if t["hdr"]:
-                ev.append(("e", "tbody" if len(t["rows"]) > t["hdr"] else "thead"))
-            ev.append(("e", "table"))
-        ev.append(("s", "body"))
-        for bi, b in enumerate(doc):
-            if is_table(b):
-                table(b, f"b{bi}")
-            else:
-                par("p", f"b{bi}")
-        ev.append(("e", "body"))
-        return ev
-
     def one(doc):
         st = State()
         for t in html_leaves(doc):
             st.assume(z3.Length(t) > 0)
         me = VRef(st.alloc(HeapObj("obj", {}, cls, fresh=False), ex.refs))
         states, raises = run.method(st, me, cls, "__init__", [])
-        for kind, arg in events(doc):
-            nxt = []
-            for s in states:
-                if kind == "s":
-                    r, x = run.method(s, me, cls, "handle_starttag", [VStr(arg), VTuple([])])
-                elif kind == "e":
-                    r, x = run.method(s, me, cls, "handle_endtag", [VStr(arg)])
-                else:
-                    r, x = run.method(s, me, cls, "handle_data", [VStr(arg)])
-                nxt.extend(r)
-                raises.extend(x)
-            states = nxt
+        done = []
+        for s0 in states:
+            ss, xx = feed_events(run, s0, me, cls, html_events(doc))
+            done.extend(ss)
+            raises.extend(xx)
         want = expected_grids(doc, html_rule)
-        return [(s.pc, to_py(s, s.obj(me.ref).data["tables"]), want) for s in states], [(s.pc, e) for (s, e) in raises]
-    return run_walker("C13/epub_extractor.py::_XhtmlTextExtractor.handle_starttag+handle_endtag+handle_data", EPUB, html_shapes(), one)
+        return [(s.pc, to_py(s, s.obj(me.ref).data["tables"]), want) for s in done], [(s.pc, e) for (s, e) in raises]
+    return run_walker("C13/epub_extractor.py::_XhtmlTextExtractor.handlers", EPUB, html_shapes(), one)
 
 
 # ====================================================================== sheets ==
